@@ -28,6 +28,39 @@ CHECKS["C15"] = ("exploration", "runtime monitoring: per-call monitors over host
 CHECKS["C17"] = ("exploration", "runtime monitoring: before/after snapshot monitor of the mounted host tree (and MapFS) around every single WASI call, full path_open flag product",
   "The full product of path_open oflags x fdflags x rights x lookupflags x paths (30 720 combinations, counted in evidence) with follow-up writes on every returned fd, every other mutating call over all paths, and PRNG sequences, on read-only dir mounts and fs.FS mounts (os.DirFS, MapFS); a recursive snapshot (names, types, sizes, SHA-256, mtime/ctime, modes, inodes, link targets) must be identical before and after every call and a known file must still read back. Held on the calls explored only.",
   "atime excluded; power-loss effects not producible", "§3 C17")
+CHECKS["C02"] = ("exploration", "runtime monitoring + sanitizer: guard-page (red-zone) linear-memory allocator around real JIT/interpreter execution, sparse reference-memory monitor per access, supervised children",
+  "Access-pattern templates (114 memory instructions; base as parameter/constant/constant-in-local/computed; calls, memory.grow and control-flow joins between accesses; the same base reused afterwards) on memories of 0..65536 pages, fixed and moving allocators, both engines. Every linear memory is [8GiB PROT_NONE | max | 8GiB PROT_NONE], so an out-of-bounds touch by generated code kills the child and is mapped back to the access; a Go reference memory decides trap/no-trap, trap kind and location, loaded values, memory contents and that trapping writes change nothing. Held on the templates and value tuples explored only.",
+  "red zone reaches +-8GiB only; page-granular for in-bounds stray writes (value oracle covers bytes); arm64 not executed", "§3 C02, §2.4")
+CHECKS["C04"] = ("exploration", "runtime monitoring: executable link model + shared-store model checked against every observation of generated module graphs on both engines; exhaustive import-matching matrix; race detector sample",
+  "The import-matching matrix over a small domain (limits, kinds, value types x mutability, function types, grown exporters, re-export chains) is enumerated exhaustively: only 'accepted although incompatible' is a violation. PRNG graphs of 2-4 modules with interleaved calls: every read on any instance (guest and host API) must equal a shared-store model; values captured at instantiation must equal the current value; failed instantiations must leave earlier instances as the spec says. Held on the pairs and graphs explored only.",
+  "spec matching rule as in DESIGN Appendix B; compatible-but-rejected imports are information only", "§3 C04, App. B")
+CHECKS["C05"] = ("exploration", "runtime monitoring: independent reference semantics (refsem, validated against 47k spec-test vectors) as oracle for every numeric opcode in several operand forms on both engines; exhaustive 8/16-bit lane spaces",
+  "All 349 numeric opcodes (scalar, saturating truncation, v128) x operand forms (parameters, baked constants, memory operands, partial constants, result consumed by if/br_if/select) x operand sets (exhaustive for 8-bit and 16-bit lanes and 8-bit pairs, boundary cross products and PRNG for wider) on interpreter and compiler; results must lie in the set the spec allows (NaN classes exact) and trap classes must match. The run is broken if any opcode/form/engine is not exercised. Held on the operand tuples explored only.",
+  "refsem is hand-written from the spec and cross-checked against the repo's spec-test vectors, math/big and Go math; amd64 with this CPU's features only", "§3 C05, App. D")
+CHECKS["C06"] = ("exploration", "runtime monitoring: model-based monitor over failure-injection histories (27 trap kinds, stack overflow, 10 host-panic kinds, exits, nesting depth 1-6) with post-failure state probes, supervised children, race detector sample",
+  "Histories of 5-40 operations over 1-3 templated instances reuse the same api.Function objects; a Go model predicts each result/error class (trap kind, stack overflow, panic value, ExitError+closed) and after every failing call all instances are probed (counter, memory cells incl. page end, table slots, IsClosed, host view): effects before the failure persist, nothing after; engines must agree; a child death is a violation. Held on the histories explored only.",
+  "documented error surface only (errors.Is/As, 'wasm error:' class, panic value); calls into instances after exit only as documented", "§3 C06")
+CHECKS["C07"] = ("exploration", "runtime monitoring: tick-counting monitor (logical steps, no clock) over an enumeration of cycle shapes x causes x moments, differential watchdog for tick-less shapes",
+  "Every way to form a cycle that the design lists (loop back-edge forms, nested loops, call/call_indirect/return_call/return_call_indirect rings incl. cross-module and through host functions, start functions, host callbacks) x {cancel, deadline, close from another goroutine, inline close} x moment of the cause, both engines. The host tick function observes IsClosed(); after it is observed at most ticks-per-iteration+1 further ticks may happen; the call must return the documented ExitError and the module be closed. Tick-less variants are judged against a control that is known to stop (CPU-time based, else inconclusive). Held on the shapes enumerated only.",
+  "bounded-progress restatement of 'promptly'; a watchdog firing without a finished control is inconclusive", "§3 C07")
+CHECKS["C09"] = ("exploration", "runtime monitoring + sanitizers: twin/invariance oracle over close/GC histories run under GODEBUG=clobberfree=1, default GC and efence=1 (Go heap sanitizers), /proc/self/maps census, race detector sample",
+  "PRNG histories over small module graphs (instantiate, call, pass funcrefs through tables/globals/table.grow, close module/compiled module/runtime/cache, drop references, forced GC with finalizer drain, churn, closes while calls are outstanding) run in four children: a twin where closes are no-ops and three real runs under different heap-sanitizer modes. Observations on live instances must equal the twin's or be an ordinary closed-module error and be identical across sanitizer modes; a child death is a violation. Held on the histories explored only.",
+  "reads of freed Go memory are only visible when they change behaviour under clobberfree/efence or crash", "§3 C09")
+CHECKS["C13"] = ("fault_enumeration", "runtime monitoring with fault injection: crash points (SIGKILL at every hook point of fileCache.Add and after k copied bytes, -tags verif hooks), truncation sweep, version skew with a second binary flavour, concurrent writers; directory monitor + next-process oracle",
+  "For ~50 modules every one of the 5 named crash points plus death after k bytes of the copy is enumerated; after each crash a directory monitor requires every file under a final key name to be byte-identical to the complete reference entry, and a fresh process using that directory must error or behave exactly like a fresh compile (leftover temp files are poisoned so reading one would kill it). Every truncation length of an entry (exhaustive for small entries), emulated and real foreign-version entries, byte determinism across processes/orders and 8 concurrent writers with a polling reader. Single-byte corruptions are information only.",
+  "process death only (no power loss); largest entries are swept with strides (stated in evidence); compiler engine (the interpreter does not use the file cache)", "§3 C13")
+CHECKS["C14"] = ("exploration", "runtime monitoring: reference model of memory limits checked after every step of grow/access histories (guest memory.size/grow, host Grow/Size, all 15 host accessors at every boundary, contents), guard/moving allocators, both engines",
+  "976 configurations (min x max x limit x capacity-from-max x allocator x local/imported/shared) with exhaustive length-3 grow sequences plus PRNG histories; after every step the model's size/bound/contents are compared with guest memory.size, grow results, host Grow(0)/Size() (mod 2^32 as documented), marker words, zeroed new pages, every host accessor at offsets around every edge incl. 2^32, and Definition min/max; engines compared with each other. Held on the histories explored only.",
+  "default-allocator histories that would really touch multi-GiB are subsampled (counted in evidence)", "§3 C14")
+CHECKS["C16"] = ("exploration", "runtime monitoring: descriptor model + in-memory file-system model + fd_readdir completeness oracle checked per WASI call, host tree comparison after each history",
+  "Histories of 10-60 WASI file calls on a small real directory (both engines) are compared call by call with a POSIX-style model (lowest-free descriptors, renumber moves, offsets/append/truncate/positional I/O on one content, directory changes visible) where the outcome is defined, plus probes of affected fds and a final sweep; readdir scripts over directory sizes x buffer sizes x cookie strategies must yield '.', '..' and every entry exactly once with non-fitting entries truncated, never skipped. Held on the histories explored only.",
+  "outcomes the docs leave open are marked unspecified (no-crash and later-consistency only); errno sets follow wazero's documented behaviour/POSIX", "§3 C16")
+CHECKS["C18"] = ("exploration", "runtime monitoring: byte-exact trace comparison of WASI-only guests across separate processes with planted host canaries (env, argv, cwd, stdin, host name via UTS namespace, start times), across engines and instances; canary/time scan of all outputs",
+  "PRNG scripts over all 46 WASI functions run under an untouched NewModuleConfig in >=6 processes with different environments (one under -race), 6 instances each (both engines, later instances created after earlier ones consumed clock/random values); traces (errno, every output region, changed bytes, memory digest) must be identical; every planted canary, host name, cwd, pid and current time encodings are searched in what calls wrote; direct assertions for args/environ/preopens/stdio; a differential watchdog shows no call really sleeps. Held on the scripts explored only.",
+  "time scan restricted to clock/filestat/random outputs with a stated chance-hit rule", "§3 C18")
+CHECKS["C20"] = ("exploration", "runtime monitoring: online bracket automaton + shadow stack inside a recording listener factory, iterator-vs-shadow-stack check, params/results vs harness-known values and host-call log, cross-engine stream comparison",
+  "Call-heavy generated programs (direct, indirect, imported host functions, re-entrant host callbacks, start functions, traps unwinding many frames, tail calls) x listener sets {all, subset} x both engines: every Before needs exactly one later After/Abort properly nested (per api.Function.Call activation), the stack iterator must list the call chain from the callee outward, top-level params/results and host-function params/results must be the actual ones, event streams must be equal across engines (non-tail-call programs) and the guest trace equal with and without listeners; two runtimes sharing a cache must each get only their own events. Held on the programs explored only.",
+  "tail-call depth is implementation-defined: streams of programs executing tail calls are not compared across engines; iterator compared up to 48 frames", "§3 C20")
 CHECKS["C01"] = ("exploration", "runtime monitoring: differential trace monitor (interpreter vs compiler) over generated programs in supervised children",
   "By-construction-valid generated programs (all enabled features, NaN-canonicalised, fuel-terminated) with PRNG call scripts are run on both engines; a monitor compares canonical traces (result bits, trap kind, host-call log, memory/global/table digests after every step) event by event; crashes and internal errors are violations, stack exhaustion is inconclusive. Held on the programs explored only.",
   "trusts the generator's NaN canonicalisation and fuel; errors shared by both engines are invisible here (C05 covers numerics); arm64 back end not executed", "§3 C01")
